@@ -35,7 +35,16 @@ HOOKS = Hooks()
 
 
 def _concrete_scalar(v):
-    return isinstance(v, (int, Fraction, float, bool)) and not isinstance(v, (SInt, SFloat))
+    if isinstance(v, SFloat):
+        # constant NaN / +-inf
+        return (v.nan is True or v.nan is False) and isinstance(v.inf, int) and (v.nan or v.inf != 0)
+    return isinstance(v, (int, Fraction, float, bool)) and not isinstance(v, SInt)
+
+
+def _tofloat_scalar(v):
+    if isinstance(v, SFloat):
+        return float('nan') if v.nan is True else float('inf') * v.inf
+    return float(v)
 
 
 def all_concrete(*xs):
@@ -50,8 +59,8 @@ def all_concrete(*xs):
 
 def to_numpy(x):
     if isinstance(x, SArr):
-        return _np.array([float(v) for v in x.flat()], dtype=float).reshape(x.shape)
-    return float(x)
+        return _np.array([_tofloat_scalar(v) for v in x.flat()], dtype=float).reshape(x.shape)
+    return _tofloat_scalar(x)
 
 
 def from_numpy(a):
